@@ -574,7 +574,94 @@ Proof. exact read_zero. Qed.
 Theorem lzma1_read_after_end : forall s buflen, l_end_reached s = true -> lzma1_read s buflen = Ok ([], s).
 Proof. exact read_ended. Qed.
 
+(* ---------------------------------------------------------------------------------------------
+   non-vacuity: a small stream, the hypotheses of the theorems on it, and the pipeline evaluated *)
+Definition ex_data : list Z := [97; 98; 97; 98; 97; 98; 99].
+Definition ex_syms : list sym := [SLit 97; SLit 98; SMatch 1 4; SLit 99].
+
+Definition run_raw (lc lp pb dict : Z) (popt : option (list Z)) (data : list Z) (syms : list sym) (marker : bool)
+           (tail sizes : list Z) (fuel : nat) : outcome (list Z * list Z) :=
+  do stream <- lzma1_write lc lp pb dict (preset_list popt) data syms false marker None;
+  do s0 <- lzma1_construct2 (stream ++ tail) (if marker then U64_MAX else zlen data) lc lp pb dict popt;
+  do r <- lzma1_read_all fuel s0 sizes sizes [];
+  Ok (fst r, lzma1_unconsumed (snd r)).
+
+Lemma ex_no_end : no_end ex_syms.
+Proof. intros s [<-|[<-|[<-|[<-|[]]]]]; discriminate. Qed.
+
+Example lzma1_roundtrip_raw_hyps : forall marker : bool,
+  bytes_ok ex_data = true /\ no_end ex_syms /\
+  (exists stream, lzma1_write 3 0 2 4096 [] ex_data ex_syms false marker None = Ok stream) /\
+  (forall E c' h', enc_syms (coder_new 3 0 2) (ehist_new 4096 [] ex_data) (ex_syms ++ end_syms marker) = Ok (E, c', h') ->
+     events_bits E <= RC_MAX_BITS) /\
+  Forall (fun z => 0 < z) [1; 3].
+Proof.
+  intros marker. split; [reflexivity|]. split; [exact ex_no_end|].
+  split; [destruct marker; eexists; vm_compute; reflexivity|].
+  split; [|repeat constructor].
+  intros E c' h' H.
+  assert (Hb : match enc_syms (coder_new 3 0 2) (ehist_new 4096 [] ex_data) (ex_syms ++ end_syms marker) with
+               | Ok (E, _, _) => events_bits E <= RC_MAX_BITS
+               | _ => True
+               end) by (destruct marker; vm_compute; discriminate).
+  rewrite H in Hb. exact Hb.
+Qed.
+
+Example lzma1_example_run :
+  run_raw 3 0 2 4096 None ex_data ex_syms true [1; 2; 3] [1; 3] 20 = Ok (ex_data, [1; 2; 3]) /\
+  run_raw 3 0 2 4096 None ex_data ex_syms false [1; 2; 3] [1; 3] 20 = Ok (ex_data, [1; 2; 3]) /\
+  run_raw 3 0 2 4096 None ex_data ex_syms false [] [4096] 20 = Ok (ex_data, []).
+Proof. vm_compute. repeat split; reflexivity. Qed.
+
+(* a preset dictionary that fills the window exactly (the first iteration produces nothing) *)
+Definition ex_preset (n : nat) : list Z := map (fun i => i mod 251) (zrange 0 n).
+
+Example lzma1_example_run_preset :
+  run_raw 3 0 2 4096 (Some (ex_preset 4096)) [0; 1; 2; 7] [SMatch 4095 3; SLit 7] false [5] [16] 20 = Ok ([0; 1; 2; 7], [5]) /\
+  run_raw 3 0 2 4096 (Some (ex_preset 4096)) [0; 1; 2; 7] [SMatch 4095 3; SLit 7] true [5] [1] 20 = Ok ([0; 1; 2; 7], [5]).
+Proof. vm_compute. split; reflexivity. Qed.
+
+Example lzma1_roundtrip_preset_hyps :
+  preset_hyps 4096 (ex_preset 4096) [0; 1; 2; 7] true /\ preset_hyps 8192 (ex_preset 100) [0; 1; 2; 7] false /\
+  bytes_ok (ex_preset 4096) = true.
+Proof.
+  split; [|split].
+  - split; [left; vm_compute; discriminate | left; reflexivity].
+  - split; [left; vm_compute; discriminate | right; right; vm_compute; discriminate].
+  - vm_compute. reflexivity.
+Qed.
+
+(* ---------------------------------------------------------------------------------------------
+   why the second clause of [preset_hyps] is there.  In the MODEL of LZMAReader::construct2 a
+   declared size below the dictionary size replaces the dictionary size by the declared size
+   (minimum 4096) BEFORE LZDecoder::new copies the preset dictionary, so only the last
+   buf_size bytes of the preset are kept and a match that reaches further back (valid for the
+   encoder, whose window is dict_size) is rejected.  Witness: dict_size 8192, a 5000-byte preset,
+   3 bytes of data coded as one match at distance 5000, declared size 3: the writer model
+   accepts the symbols, the reader model fails with the error of lz.repeat (E_OTHER); the same
+   stream with an end marker and unknown size is read back correctly. *)
+Theorem lzma1_preset_declared_size_refuted :
+  exists lc lp pb dict preset data syms stream,
+    0 <= lc <= 8 /\ 0 <= lp <= 4 /\ 0 <= pb <= 4 /\ 4096 <= dict <= 2147483648 /\
+    bytes_ok preset = true /\ bytes_ok data = true /\ no_end syms /\ zlen preset <= dict /\
+    lzma1_write lc lp pb dict preset data syms false false None = Ok stream /\
+    exists s0, lzma1_construct2 stream (zlen data) lc lp pb dict (Some preset) = Ok s0 /\
+      lzma1_read s0 16 = Err E_OTHER.
+Proof.
+  exists 3, 0, 2, 8192, (ex_preset 5000), [0; 1; 2], [SMatch 4999 3].
+  eexists. split; [lia|]. split; [lia|]. split; [lia|]. split; [lia|].
+  split; [vm_compute; reflexivity|]. split; [reflexivity|].
+  split; [intros s [<-|[]]; discriminate|]. split; [vm_compute; discriminate|].
+  split; [vm_compute; reflexivity|].
+  eexists. split; [vm_compute; reflexivity|]. vm_compute. reflexivity.
+Qed.
+
+Example lzma1_preset_declared_size_marker_ok :
+  run_raw 3 0 2 8192 (Some (ex_preset 5000)) [0; 1; 2] [SMatch 4999 3] true [] [16] 20 = Ok ([0; 1; 2], []).
+Proof. vm_compute. reflexivity. Qed.
+
 Print Assumptions lzma1_roundtrip_raw.
 Print Assumptions lzma1_roundtrip_preset.
 Print Assumptions lzma1_roundtrip_header.
 Print Assumptions lzma1_read_zero.
+Print Assumptions lzma1_preset_declared_size_refuted.
